@@ -275,7 +275,7 @@ theorem single_exchange (c : Setup) (req resp : List UInt8) (srv1 : Srv) (o : R 
   obtain ⟨m, rfl⟩ : ∃ m, n = m + 1 := ⟨n - 1, by omega⟩
   have hm : mailsAfter c (m + 1) = mkMails c.p.inSz c.sched [[resp]] := by
     simp [mailsAfter, iter, f0, iter_fix _ _ f1]
-  simp only [system, hm, r1, hs]
+  simp only [system, resultOf, hm, r1, hs]
   exact ⟨ho, trivial, trivial, h1⟩
 
 /-! ### the server on the master's messages -/
